@@ -27,7 +27,9 @@ EXPLANATION = (
     "surface (decided by truth table, whatever the arrangement of guard clauses); R8 no process-wide table (memo of parsed names, cached "
     "symbol list) stands between a name and its decomposition (shared with C17.R3); R9 the symbol tables consulted are the configured ones, "
     "the defaults only when nothing at all is configured (shared with C01.R6); R10 every entry point of Network that parses names installs both of "
-    "its own symbol lists first, unconditionally (shared with C17.R3).")
+    "its own symbol lists first, unconditionally (shared with C17.R3); R11 the symbol tables hold the caller's symbols verbatim: every value a method of "
+    "Species stores into _known_elements / _known_pseudoelements from one of its parameters is an element of that parameter untouched (the tokenizer "
+    "searches the entries as patterns but recognises a match by comparing its TEXT with the entries).")
 ASSUMPTIONS = [
     "the composition a given name decodes to, the pairing of a count with the symbol before it, mass numbers (data tables), the gas-phase counterpart and the behaviour of "
     "`re` on a given alphabet are NOT decided: this check decides necessary structural conditions of the tokenizer, not its results",
@@ -61,6 +63,7 @@ def check(ctx):
     from .c04 import _r6 as table_accumulates
     ctx.absorb(table_accumulates, "R5", only=lambda o: o.outcome != "MISSING")
     _r7(ctx, pkg)
+    _r11(ctx, pkg, cname, cfn)
     # R8 the decomposition is a function of the name and the configured tables: no table shared by all Species (a memo of parsed
     # names, a cached symbol list) stands between them (shared with C17.R3 process-wide state discovery)
     from .c17 import discovered_state
@@ -375,6 +378,93 @@ def _r5_r6(ctx, fl, pfn, pname, cname):
                       expected="self._replacement.get(symbol, symbol)", found=show(a0)[:100])
 
 
+# ------------------------------------------------------------------ R11  the symbol tables hold the caller's symbols verbatim
+
+TABLES = ("_known_elements", "_known_pseudoelements")
+
+
+def _identity_view(v, params):
+    """v is the caller's list itself or a copy with the same elements: P, list(P), tuple(P), P.copy(), P[:], [x for x in P [if ..]]"""
+    v = simp(v)
+    if v[0] == "param" and v[1] in params:
+        return True
+    if v[0] == "copy":
+        return _identity_view(v[1], params)
+    if v[0] == "call" and v[1] in (("global", "list"), ("global", "tuple")) and len(v[2]) == 1 and not v[3]:
+        return _identity_view(v[2][0], params)
+    if v[0] == "sub" and v[2] == ("slice", ("const", None), ("const", None), ("const", None)):
+        return _identity_view(v[1], params)
+    if v[0] == "comp" and v[1] in ("list", "gen") and len(v[3]) == 1 and v[3][0][0] == v[2] and v[2][0] == "bv":
+        return _identity_view(v[3][0][1], params)
+    return False
+
+
+def _r11(ctx, pkg, cname, cfn):
+    """The tokenizer searches every table entry as a PATTERN but recognises what it found by comparing the matched TEXT with the
+    table entries (`element in self._known_pseudoelements` in the count method).  For the two to agree a symbol must be stored
+    exactly as the caller gave it: every value a method of Species puts into _known_elements / _known_pseudoelements that comes
+    from one of its parameters is an element of that parameter, untouched (no escape / strip / case change / formatting on the way)."""
+    ci = pkg.cls("Species")
+    # premise: the count method classifies by membership of the matched text in a table
+    premise = any(isinstance(c, ast.Compare) and len(c.ops) == 1 and isinstance(c.ops[0], (ast.In, ast.NotIn)) and isinstance(c.comparators[0], ast.Attribute)
+                  and c.comparators[0].attr in TABLES for c in ast.walk(cfn))
+    n = 0
+
+    def proc(name):
+        return pkg.resolve("Species", name)[1]
+    for mname, fn in sorted(ci.methods.items()):
+        if not isinstance(fn, ast.FunctionDef) or not any(isinstance(a, ast.Attribute) and a.attr in TABLES for a in ast.walk(fn)):
+            continue
+        params = {a.arg for a in fn.args.args[1:] + fn.args.kwonlyargs} if not any(ast.unparse(d) == "staticmethod" for d in fn.decorator_list) else {a.arg for a in fn.args.args}
+        if not params:
+            continue
+        try:
+            fl = Flow(fn, SP, resolver=proc, proc_resolver=proc)
+        except RecursionError:
+            continue
+        for f in fl.facts:
+            table = how = v = None
+            if f.kind == "call" and f.value is not None and f.value[0] == "meth" and f.value[2] in ("append", "extend", "insert", "__iadd__"):
+                o = simp(f.value[1])
+                if o[0] == "attr" and o[2] in TABLES and f.value[3]:
+                    table, how, v = o[2], f.value[2], f.value[3][-1]
+            elif f.kind == "attrstore" and f.target in TABLES:
+                table, how, v = f.target, "extend", f.value
+                if f.op not in ("=", "Add"):
+                    continue
+            if table is None or v is None:
+                continue
+            v = simp(v)
+            if not any(isinstance(x, tuple) and len(x) == 2 and x[0] == "param" and x[1] in params for x in walk(v)):
+                continue            # not the caller's symbols (the defaults, entries moved from the other table)
+            n += 1
+            key = f"Species.{mname}:{table}.{how}:stored verbatim"
+            atoms = set()
+            if how in ("append", "insert"):
+                elt = v
+            elif v[0] == "comp" and v[1] in ("list", "gen") and len(v[3]) == 1 and _identity_view(v[3][0][1], params):
+                elt = v[2]
+                atoms = {x for x in walk(v[3][0][0]) if isinstance(x, tuple) and x and x[0] == "bv"}
+            elif _identity_view(v, params):
+                ctx.ok("R11", key, (SP, f.line), "the caller's list is stored as it is")
+                continue
+            else:
+                ctx.unrec("R11", key, (SP, f.line), f"cannot tell how the stored list derives from the argument: {show(v)[:100]}")
+                continue
+            atoms |= {x for x in walk(elt) if isinstance(x, tuple) and len(x) == 3 and x[0] == "elem" and _identity_view(x[1], params)}
+            if elt in atoms:
+                ctx.ok("R11", key, (SP, f.line), "the symbol is stored exactly as the caller gave it")
+            elif atoms and premise:
+                ctx.bad("R11", key, (SP, f.line),
+                        f"the symbol is TRANSFORMED before it is stored in `{table}` ({show(elt)[:80]}): the tokenizer finds the symbol by searching the stored entry as a pattern, but "
+                        f"`{cname}` recognises what was found by comparing the matched text with the stored entries -- a symbol whose stored form differs from its text (`c-` stored as "
+                        "`c\\-`) is still matched and no longer recognised as a pseudo-element: the label is counted as an atom",
+                        expected=f"{table}.append(symbol) / .extend(symbols)", found=show(elt)[:120])
+            else:
+                ctx.unrec("R11", key, (SP, f.line), f"cannot tell whether the stored value is the caller's symbol: {show(elt)[:100]}")
+    ctx.floor("R11", "stores of caller-given symbols into the tables", n, 4, (SP, 0))
+
+
 # ------------------------------------------------------------------ R7  is_atom by truth table
 
 def _r7(ctx, pkg):
@@ -516,4 +606,17 @@ MUTANTS += [
         {"file": SP, "old": _CLS_AT, "new": _CLS_AT + '    _plus_run = re.compile(r"\\+*$")\n    _minus_run = re.compile(r"-+")\n'},
         {"file": SP, "old": _CHARGE, "new": '        pcharge = "".join(self._plus_run.findall(self.name)).count("+")\n        ncharge = "".join(self._minus_run.findall(self.name)).count("-")'}],
      "rules": ["R4"]},
+]
+
+# ---- R11: the tables hold the caller's symbols verbatim ---------------------------------------------------------------------------
+_ADD_LOOP = "        for ele in elements:\n            if ele in cls._known_elements:\n                logging.warning(f\"{ele} exists in element list, skip!\")\n"
+_SET_PS = "        cls._known_pseudoelements.clear()\n        cls._known_pseudoelements.extend(pelements)\n"
+MUTANTS += [
+    {"name": "added-symbols-stored-escaped", "file": SP, "old": _ADD_LOOP, "new": _ADD_LOOP.replace("for ele in elements:", "for ele in map(re.escape, elements):"), "rules": ["R11"]},
+    {"name": "set-pseudo-symbols-stored-stripped-upper", "file": SP, "old": _SET_PS,
+     "new": "        cls._known_pseudoelements.clear()\n        cls._known_pseudoelements.extend([p.strip().upper() for p in pelements])\n", "rules": ["R11"]},
+]
+BENIGN += [
+    {"name": "set-pseudo-symbols-copied-first", "file": SP, "old": _SET_PS,
+     "new": "        fresh = [p for p in pelements]\n        cls._known_pseudoelements.clear()\n        cls._known_pseudoelements.extend(list(fresh))\n"},
 ]
